@@ -41,9 +41,16 @@ const genRule = "clusters drawn from the PCG stream (VERIF_SEED, case index) by 
 
 // registerSched registers the scheduler-side checks.
 func registerSched() {
-	run.Register(&SchedCheck{Id: "C01", Profile: "tight", Quick: 1000, Thorough: 8000, Oracle: cyc(oracle.CheckC01),
-		RuleText: genRule + "Non-trivial: a case with >=1 successful Bind onto a node that held a terminating or same-cycle-evicted pod, or that ended within 25% of full in a requested resource. Distinct = distinct hash of (objects, config, faults).",
-		Assume:   []string{"DRA-claimed devices and CSI capacity are not checked", "pod slots of future reservation pods are not charged to the bind that opens a GPU group"}})
+	run.Register(&SchedCheck{Id: "C01", Profile: "tight", Quick: 1000, Thorough: 8000,
+		Oracle: func(m *oracle.Model, res *sched.CycleResult, after *spec.Objects, c *spec.Case, st *oracle.Stats) []run.Violation {
+			out := oracle.CheckC01(m, res.Events, res.Cycle, st)
+			// DRA: claimed devices are a node resource too (oracle/dra.go)
+			return append(out, oracle.CheckClaimedDevices(m, res.Events, after, res.Cycle, st)...)
+		},
+		RuleText: genRule + "Non-trivial: a case with >=1 successful Bind onto a node that held a terminating or same-cycle-evicted pod, or that ended within 25% of full in a requested resource. Distinct = distinct hash of (objects, config, faults). " +
+			"About 30% of the cases carry Dynamic Resource Allocation objects (DeviceClass, node-local ResourceSlices with 1-4 devices, ResourceClaims of 1-2 devices, see gen/dra.go); clause claimed-device-conservation: over the store before the cycle and the successful Binds, no device is allocated to two claims, every allocated device belongs to a slice of the selected node, an allocated claim keeps its devices and its pod goes to their node.",
+		Assume: []string{"CSI capacity is not checked", "pod slots of future reservation pods are not charged to the bind that opens a GPU group",
+			"DRA devices are node-local, of one non-GPU device class, requested by exact count; device taints, selectors, shared/consumable capacity and GPU-class claims are not generated"}})
 	run.Register(&SchedCheck{Id: "C02", Profile: "fractions", Quick: 1000, Thorough: 8000, Oracle: cyc(oracle.CheckC02),
 		RuleText: genRule + "Non-trivial: a case that binds a fractional pod into a group that already has a sharer, binds a multi-fraction pod, or binds on a node with <=1 free GPU device.",
 		Assume:   []string{"one accounting unit (1/deviceMemory) of slack per sharer", "device identity of whole-GPU pods is not observable; checked as whole+shared<=count"}})
